@@ -6,11 +6,12 @@ import numpy as np
 from .. import cases, monitors
 
 TITLE = "Statistical sampler emits valid continua with the reference's statistics"
-DECIDING = ["M-VALID", "M-LAW-COUNTS", "M-LAW-GAPS", "M-LAW-DURATIONS", "M-LAW-CATEGORIES", "M-MEASURE"]
+DECIDING = ["M-VALID", "M-LAW-COUNTS", "M-LAW-GAPS", "M-LAW-DURATIONS", "M-LAW-CATEGORIES", "M-MEASURE", "M-REINIT"]
 LEVEL = "exploration"
 RULE = ("(1) per-draw validity on hostile parameter sets (custom: large deviations, zero / negative means, mean number of "
         "units 0, durations near the segment precision, weights None or skewed; reference-initialised: random labelled "
-        "continua, ground-truth subsets): non-empty, annotators == ground truth, every duration above the segment "
+        "continua, ground-truth subsets, and re-initialisation of the same sampler object on the same reference with "
+        "another ground truth): non-empty, annotators == ground truth, every duration above the segment "
         "precision, categories within the reference's / supplied ones - every draw; with a trace monitor on numpy's "
         "global RNG (each normal() carries one of the three (mean, deviation) pairs, each choice() the category array "
         "and weights, unit durations and labels are explained by recorded draws); (2) law: black-box moments over "
@@ -335,6 +336,16 @@ def check_case(ctx, case):
             check_trace(ctx, list(log), us, h, gt)
         if case.get("benign"):
             collected.append(us)
+    # re-initialisation history: the same sampler object, the same reference object, another ground truth
+    if case.get("reinit_ground_truth") is not None and continuum is not None:
+        gt2 = sorted(case["reinit_ground_truth"]) or sorted(case["continuum"]["ann"].keys())
+        try:
+            sampler.init_sampling(continuum, list(case["reinit_ground_truth"]) or None)
+            ctx.count("M-REINIT")
+            for i in range(10):
+                check_valid(ctx, sampler.sample_from_continuum, gt2, allowed, "reference/re-initialised")
+        except Exception as e:
+            ctx.fail_exc(f"reinit-raises:{type(e).__name__}", e, monitor="M-VALID")
     if before is not None and monitors.diff_snap(before, monitors.snapshot_continuum(continuum)):
         ctx.fail("reference-modified-by-sampling", {"diff": monitors.diff_snap(before, monitors.snapshot_continuum(continuum))},
                  monitor="M-VALID")
@@ -408,7 +419,10 @@ def run(ctx):
                                     labels=rng.choice([cases.LABELS_SMALL, cases.LABELS_WORDS, ["only"]]))
         names = sorted(cspec["ann"].keys())
         gt = sorted(rng.sample(names, rng.randint(2, n))) if (n >= 3 and rng.random() < 0.4) else None
-        plan_.append({"init": "reference", "continuum": cspec, "ground_truth": gt, "benign": False, "draws": 40})
+        case = {"init": "reference", "continuum": cspec, "ground_truth": gt, "benign": False, "draws": 40}
+        if n >= 3 and rng.random() < 0.6:
+            case["reinit_ground_truth"] = rng.choice([[], sorted(rng.sample(names, rng.randint(2, n)))])
+        plan_.append(case)
     for case in plan_:
         if ctx.out_of_time() and not case.get("benign"):
             break
